@@ -50,10 +50,12 @@ CLAIMED = {
              "deleting what follows a blocking statement preserves outcome, consumed oracle stream and the trace of executed statements; a try statement is never reported blocking; "
              "and has_side_effect's model answers False only for "
              "expressions in which no position (comprehension element, condition, slice, f-string, keyword value, lambda default) holds a store, a control transfer, a "
-             "call to a callee outside the whitelist or an unknown callable handed to a builtin that calls it (pure_sound). 7 theorems. The models equal core.is_blocking on all enumerated statement shapes and core.has_side_effect "
+             "call to a callee outside the whitelist or an unknown callable handed to a builtin that calls it (pure_sound); and the fixpoint of parsing.safe_callable_names (which user functions may be called "
+             "without a side effect) admits only self-consistent names: every definition of an admitted name has no effect of its own and calls admitted names only, so a call never reaches an effect at any call depth; a builtin name the module "
+             "binds itself is not taken for the builtin (safe_callables_consistent / _no_effect, any number of definitions, redefinitions, recursion). 9 theorems. The models equal core.is_blocking on all enumerated statement shapes and core.has_side_effect "
              "on every expression node of the corpus x 3 whitelists; the semantics equals CPython on instrumented functions.",
         design="4/C16",
-        note="Trusted: Lean kernel; Flow.lean tied by suites blocking (exhaustive shapes) and exec (CPython); SideEffect.lean tied by suite sideeffect "
+        note="Trusted: Lean kernel; Flow.lean tied by suites blocking (exhaustive shapes) and exec (CPython); SafeCalls.lean tied by suite safecalls (per-definition summaries computed with the real has_side_effect / is_blocking and checked under random whitelists; admitted names vs parsing.safe_callable_names); SideEffect.lean tied by suite sideeffect "
              "(expressions, simple statements, for and if statements; def / class statements of has_side_effect are outside it); that whitelisted callees are themselves effect-free is "
              "an assumption (callables handed to builtins that call them - key=, map, filter - are in the model since the repair f067a1c); try-else, several handlers, async constructs and match statements are outside the skeleton; shapes with a jump in a finally block "
              "inside a loop are not executed against CPython (they swallow the step budget).",
@@ -71,7 +73,8 @@ CLAIMED = {
     "C05": dict(
         text="Machine-checked proof of the memoisation protocol: under the purity hypothesis (no rule hands back a changed cached tree) the cache stays "
              "well-formed and faithful after every history and the output of a call is independent of the history (evictions included); a witness "
-             "shows the hypothesis cannot be dropped. 4 theorems. The hypothesis is checked for every pipeline rule on each run.",
+             "shows the hypothesis cannot be dropped. 4 theorems. The hypothesis is checked for every pipeline rule on each run: objects handed out by the caches (suite purity) and every mutable "
+             "container bound at module or class level in a pyrefact module (suite module-state; a change starts a search for a history on which an output differs).",
         design="4/C05",
         note="Trusted: Lean kernel; Cache.lean tied to functools.lru_cache by suite lru; rule purity is a checked assumption (suite purity), not a theorem; "
              "Python aliasing is modelled as 'the tree left in the slot'.",
@@ -107,7 +110,7 @@ CLAIMED = {
     "C09": dict(
         text="Machine-checked proof of the orchestration facts: the convergence loop exits only on a repeated text or a spent budget; a text on which every "
              "stage is the identity is a fixed point of format_code and of all its iterates; on a cycle the loop returns a member of the cycle (witness); "
-             "fix remembers only the initial text. 5 theorems. Convergence of the rule set is examined by the 7-fold iteration sweep.",
+             "fix remembers only the initial text. 5 theorems. Convergence of the rule set is examined by the 7-fold iteration sweep (corpus x options, and a line-limit family: long statements at nesting depths 0-12 x limits 60 / 80 / 100).",
         design="4/C09",
         note="Trusted: Lean kernel; Driver model tied by suite driver; confluence/termination of the ~95 heuristic rules is not a theorem.",
         technique="Lean 4 proof (loop invariants) + orchestration correspondence + iteration sweep",
@@ -117,8 +120,9 @@ CLAIMED = {
              "length (regular-expression reading), for all quantifier lists and lengths; (2) soundness of the matcher w.r.t. an inductive declarative "
              "semantics with one canonical text per wildcard name, for all trees, templates, class hierarchies and fuels; bindings are functional. "
              "(3) every tree matches itself: a tree read as a template is accepted with no bindings, for every tree with distinct field names and every fuel from an explicit bound on. "
-             "Completeness is false in general (nested-list backtracking): counterexample evaluated on the model and replayed on the code (known finding). 4 theorems. "
-             "Statement-sequence search is checked against a reference computed from the ast (every window in body / else blocks, with multiplicity).",
+             "Completeness is false in general (nested-list backtracking): counterexample evaluated on the model and replayed on the code (known finding). "
+             "(4) the statement windows walk_sequence tries (zip of k shifted slices, Python's negative-stop rule included) are exactly the contiguous windows of k statements, each once, in order, for every body and k >= 1. 6 theorems. "
+             "Statement-sequence search as a whole is checked against a reference computed from the ast (every window in body / else blocks, with multiplicity).",
         design="4/C12",
         note="Trusted: Lean kernel; Quant/Match models tied by suites perms (exhaustive small scope) and match (templates harvested from the running pipeline + "
              "compiled patterns x corpus nodes, via an exporter of ast trees / compiled templates); walk order and compile_template preprocessing are covered by the oracle only.",
@@ -127,10 +131,11 @@ CLAIMED = {
     "C13": dict(
         text="Machine-checked proof of the offset algebra: every reported offset lies inside the source (any text, line-break set, line, byte column); byte "
              "columns convert exactly at character boundaries for any script and are the identity on ASCII; the reported (line, column) of a match addresses "
-             "its span start on the line containing it; physical lines partition the text. 5 theorems.",
+             "its span start on the line containing it; physical lines partition the text; get_charnos in full (blank trimming, decorator look-behind, keep_first_indent): the range lies inside the text, "
+             "trimming cuts blanks only and stops at the first / last non-blank character, the look-behind moves by one character onto an '@', keep_first_indent extends over blanks only. 8 theorems.",
         design="4/C13",
-        note="Trusted: Lean kernel; Offsets/Lines models tied by suite offsets on non-ASCII / CRLF / form-feed / U+2028 sources; that CPython positions delimit the "
-             "node text, blank trimming and the decorator extension are checked by the coherence oracle, not proved.",
+        note="Trusted: Lean kernel; Offsets/Lines models tied by suite offsets on non-ASCII / CRLF / form-feed / U+2028 sources; Charnos.lean tied by suite charnos (every positioned node x keep_first_indent against core.get_charnos); that CPython positions delimit the "
+             "node text is the oracle's definition.",
         technique="Lean 4 proof (list/arith induction) + differential correspondence + span-vs-ast.get_source_segment oracle",
     ),
     "C06": dict(
@@ -148,7 +153,7 @@ CLAIMED = {
              "yielded matches; ignored lines occur verbatim; the result is valid for valid input. 6 theorems.",
         design="4/C14",
         note="Trusted: Lean kernel; scheduler/splice models tied by suite sub (the real match stream of find_replace scheduled and spliced by the model vs the real "
-             "subn); template instantiation is taken from the real code; 'tree = source tree with nodes replaced' is decided by the AST oracle only.",
+             "subn); template instantiation is taken from the real code; 'tree = source tree with nodes replaced' is decided by the AST oracles only (sub-ast-reference: the node at each matched range replaced by the parsed replacement, 15 expression patterns x syntactic positions).",
         technique="Lean 4 proof (composition) + differential correspondence on the real match stream + AST-level reference substitution oracle",
     ),
     "C19": dict(
@@ -206,20 +211,24 @@ CLAIMED = {
     "C11": dict(
         text="Machine-checked proof of the whitespace algebra: tab expansion and trailing-blank removal keep the sequence of non-whitespace characters, no tab is left after "
              "expansion, any whitespace-for-whitespace replacement (blank-line regexes, diff minimisation) keeps it too; the statement that literal values are preserved is FALSE "
-             "of the text-level stages and carries a counterexample theorem (replayed, known findings). 5 theorems.",
+             "of the text-level stages and carries a counterexample theorem (replayed, known findings). fix_too_many_blank_lines is modelled character by character (its three regular-expression "
+             "substitutions): every line with a non-whitespace character survives verbatim, indentation included, and in order, for every text and any order of the substitutions; the final whitespace "
+             "diff minimisation is modelled over an arbitrary diff script: the rebuilt text has exactly the non-whitespace characters of the formatted text. 9 theorems.",
         design="4/C11",
-        note="Trusted: Lean kernel; Layout.lean tied by suite layout (str.expandtabs(4), rmspace.format_str byte for byte); that whitespace changes outside literals keep the AST "
+        note="Trusted: Lean kernel; Layout.lean tied by suite layout (str.expandtabs(4), rmspace.format_str byte for byte), BlankLines.lean by suite blanklines (the real function and each of its re.sub calls, "
+             "byte for byte, exhaustive small scope + random), Minimize.lean by suite minimize (difflib's script handed to the model); difflib is a parameter; that whitespace changes outside literals keep the AST "
              "is Python's lexical grammar (AST oracle); black / compactify are external.",
         technique="Lean 4 proof (list induction, decide) + differential correspondence + ast.dump oracle per layout stage and line width",
     ),
     "C18": dict(
         text="Machine-checked proof on import lists: with pairwise distinct bound names every permutation (sorting, merging, moving) of the import statements gives the same "
-             "environment and every name resolves to its own statement's object; the side condition is necessary (alias-collision counterexample theorem). 3 theorems. The model's "
-             "environment equals what CPython binds for stdlib import blocks.",
+             "environment and every name resolves to its own statement's object; the side condition is necessary (alias-collision counterexample theorem); removing any selection of statements keeps every binding none of them makes, a shadowed statement can go; "
+             "and a decidable validator of import rewrites is sound (accepted => every used name is bound to the same object before and after). 6 theorems. The model's "
+             "environment equals what CPython binds for stdlib import blocks; every changed output of the real import rules on generated import headers is put to the validator, a rejected rewrite is executed.",
         design="4/C18",
-        note="Trusted: Lean kernel; Imports.lean tied by suite binding; importlib resolution, re-export tracing, __all__, star expansion are outside the model: execution oracle on a "
+        note="Trusted: Lean kernel; Imports.lean tied by suites binding and import-validate-model (the validator's verdict vs the identity of the objects CPython binds); importlib resolution, re-export tracing, __all__, star expansion are outside the model: execution oracle on a "
              "generated package tree (fresh interpreter per client and rule) and a two-checkout history oracle.",
-        technique="Lean 4 proof (permutation invariance under a nodup side condition) + CPython binding correspondence + package-tree execution oracle",
+        technique="Lean 4 proof (permutation invariance under a nodup side condition, removal lemmas, sound rewrite validator) + CPython binding correspondence + translation validation of the import rules + package-tree execution oracle",
     ),
 }
 
